@@ -14,7 +14,7 @@ From Coq Require Import String NArith ZArith QArith Bool Arith Permutation List.
 From GT Require Import Base.UTree Spec.Obs Spec.Support Model.Support
      Proofs.SupportBase Proofs.SupportMTD Proofs.SupportClosed Proofs.SupportSpec Proofs.SupportDomain
      Proofs.SupportInvariance Proofs.SupportReroot Model.EdgeIndex Proofs.SupportIndex
-     Spec.SupportW Model.SupportW Proofs.SupportW.
+     Spec.SupportW Model.SupportW Proofs.SupportW Model.SupportFamily Proofs.SupportFamily.
 From GT Require Model.Index Proofs.IndexSplit.
 Import ListNotations.
 Local Close Scope Q_scope.
@@ -291,6 +291,73 @@ Theorem progress_with_multiplicities :
   forall ref w, n_processed ref (expand w) = wn_processed ref w.
 Proof. exact n_processed_expand. Qed.
 Print Assumptions progress_with_multiplicities.
+
+(** * rejection at full strength: duplicated tip names *)
+Theorem reference_with_duplicated_names_rejected :
+  forall ref boots,
+    has_dup (tip_names ref) = true ->
+    oerr (fbp ref boots) = dup_msg /\ oerr (tbe ref boots) = dup_msg.
+Proof. exact dup_reference_rejected. Qed.
+Print Assumptions reference_with_duplicated_names_rejected.
+
+(** any bootstrap tree (well-formed, root of degree >= 2) that is not a tree with distinct names on
+    the taxa of the reference makes both functions return an error, wherever it stands *)
+Theorem bad_bootstrap_tree_is_rejected :
+  forall ref boots b,
+    Proofs.SupportBase.good ref -> In b boots -> wf b = true -> 2 <= degree b ->
+    ~ (NoDup (leaves b) /\ same_taxa_p ref b) ->
+    oerr (fbp ref boots) <> "" /\ oerr (tbe ref boots) <> "".
+Proof. exact bad_bootstrap_tree_rejected. Qed.
+Print Assumptions bad_bootstrap_tree_is_rejected.
+
+Example duplicated_names_example :
+  wf w_boot_dup = true /\ 2 <= degree w_boot_dup /\ ~ NoDup (leaves w_boot_dup) /\
+  oerr (fbp w_ref [w_boot; w_boot_dup]) = dup_msg /\ oerr (tbe w_ref [w_boot; w_boot_dup]) = dup_msg.
+Proof. exact w_dup_example. Qed.
+Print Assumptions duplicated_names_example.
+
+(** * the 'family' cases: (((a,b),(c,d)),(e,f),H) against ((H,(c,e)),(a,f),(b,d))
+    for ANY common clade H on at least 8 taxa: light sides and transfer indexes of the eleven
+    reference branches outside H, in the definition and in the model (so the values the judge
+    computes on the 12-taxon member are those of the 65543-taxon trees the worker runs) *)
+Theorem family_definition :
+  forall H, NoDup (leaves H) -> (forall x, In x (leaves H) -> ~ In x Sm) ->
+            8 <= length (leaves H) ->
+    map (fun ec => (length (light (Sm ++ leaves H) (leaves (snd ec))),
+                    delta (Sm ++ leaves H) (light (Sm ++ leaves H) (leaves (snd ec))) (fam_boot_of H)))
+        (firstn 11 (edges (fam_ref_of H)))
+    = fam_expected.
+Proof. exact family_spec. Qed.
+Print Assumptions family_definition.
+
+Theorem family_in_the_model :
+  forall H, wf_sub H = true -> NoDup (leaves H) -> (forall x, In x (leaves H) -> ~ In x Sm) ->
+            8 <= length (leaves H) ->
+    map (fun ec => (topo_depth (fam_ref_of H) (snd ec),
+                    min_transfer_dist (length (tips (fam_ref_of H))) (topo_depth (fam_ref_of H) (snd ec))
+                                      (ntax_right (snd ec)) (below (snd ec)) false (fam_boot_of H)))
+        (firstn 11 (edges (fam_ref_of H)))
+    = fam_expected.
+Proof. exact family_model. Qed.
+Print Assumptions family_in_the_model.
+
+Theorem family_in_the_model_absent :
+  forall H, wf_sub H = true -> NoDup (leaves H) -> (forall x, In x (leaves H) -> ~ In x Sm) ->
+            8 <= length (leaves H) ->
+    forall i e c p v,
+      nth_error (firstn 11 (edges (fam_ref_of H))) i = Some (e, c) -> nth_error fam_expected i = Some (p, v) ->
+      2 <= p -> 1 <= v ->
+      topo_depth (fam_ref_of H) c = p /\
+      min_transfer_dist (length (tips (fam_ref_of H))) (topo_depth (fam_ref_of H) c) (ntax_right c) (below c)
+                        true (fam_boot_of H) = v.
+Proof. exact family_model_absent. Qed.
+Print Assumptions family_in_the_model_absent.
+
+Example family_member_of_the_judge :
+  wf_sub fam_H = true /\ NoDup (leaves fam_H) /\ (forall x, In x (leaves fam_H) -> ~ In x Sm) /\
+  8 <= length (leaves fam_H).
+Proof. exact fam_H_ok. Qed.
+Print Assumptions family_member_of_the_judge.
 
 (** * the hypotheses are satisfiable *)
 Example domain_inhabited : domain w_ref [w_boot].
